@@ -33,6 +33,9 @@ type Fault struct {
 	// (load-balanced provider): blocks above its head do not exist for it (null
 	// results, eth_getLogs answers from the blocks it has). Correct data, incomplete.
 	Lag int
+	// LagHit is set by the node when the lagging answer differs from what an
+	// up-to-date replica would have answered (the request reached beyond the replica's head).
+	LagHit bool
 }
 
 type Served struct {
@@ -447,20 +450,33 @@ func (n *Node) Handle(body []byte) (status int, out []byte, closeConn bool) {
 	}
 	sv := Served{Seq: ri.Seq, Kind: ri.Kind}
 	var resp any
+	answer := func(sv *Served) any {
+		if batch {
+			arr := make([]any, len(calls))
+			for i, c := range calls {
+				arr[i] = n.one(c, sv)
+			}
+			return arr
+		}
+		return n.one(calls[0], sv)
+	}
 	if fault != nil && fault.Lag > 0 {
+		// what an up-to-date replica would say (not counted), then the lagging answer
+		counts, nf := map[string]int{}, len(n.logFilters)
+		for k, v := range n.counts {
+			counts[k] = v
+		}
+		fullJSON, _ := json.Marshal(answer(&Served{}))
+		n.counts, n.logFilters = counts, n.logFilters[:nf]
 		full := n.Chain
 		k := max(1, len(full.Blocks)-fault.Lag)
 		n.Chain = &Chain{Blocks: full.Blocks[:k:k]}
-		defer func() { n.Chain = full }()
-	}
-	if batch {
-		arr := make([]any, len(calls))
-		for i, c := range calls {
-			arr[i] = n.one(c, &sv)
-		}
-		resp = arr
+		resp = answer(&sv)
+		n.Chain = full
+		lagJSON, _ := json.Marshal(resp)
+		fault.LagHit = string(fullJSON) != string(lagJSON)
 	} else {
-		resp = n.one(calls[0], &sv)
+		resp = answer(&sv)
 	}
 	if n.KeepLog {
 		n.served = append(n.served, sv)
